@@ -161,7 +161,7 @@ def concrete_steps_to_trace(steps):
             return out, abort
         post = decode_state(st["rawT"], st["rawL"])
         op = st["op"]
-        if op == "Init" or (isinstance(op, dict) and op["op"] == "Clear"):
+        if op == "Init" or (isinstance(op, dict) and op["op"] in ("Clear", "Recreate")):
             diff, lid = store_diff(EMPTY, post)
             reset = True
         else:
@@ -178,7 +178,7 @@ def concrete_steps_to_trace(steps):
         if op == "Init":
             rec.update({"op": "Init", "a": {"none": 0}, "exc": "", "pages": 0, "created": []})
         else:
-            a = {k: v for k, v in op.items() if k != "op"}
+            a = {k: v for k, v in op.items() if k not in ("op", "text")}
             res = st["res"]
             rec.update({"op": op["op"], "a": conv_args(op["op"], a), "exc": res["exc"],
                         "pages": res["pages"], "created": res["created"]})
